@@ -382,6 +382,41 @@ pub fn order_compare(left: &Value, right: &Value) -> Ordering {
     }
 }
 
+/// verif hook: how `compare_strings_with_temporal` sees a string — the kind of temporal value it
+/// parses to (0 Date, 1 LocalTime, 2 Time, 3 LocalDateTime, 4 DateTime) and a key whose
+/// lexicographic order is the order the comparator uses within that kind.
+#[cfg(nervusdb_verif)]
+pub fn verif_temporal_key(s: &str) -> Option<(u8, i128, i64, i64)> {
+    use evaluator_temporal_math::time_of_day_nanos;
+    Some(
+        match evaluator_temporal_parse::parse_temporal_string(s)? {
+            TemporalValue::Date(d) => (0, i128::from(d.num_days_from_ce()), 0, 0),
+            TemporalValue::LocalTime(t) => (1, time_of_day_nanos(t), 0, 0),
+            TemporalValue::Time { time, offset } => (
+                2,
+                time_of_day_nanos(time) - (offset.local_minus_utc() as i128 * 1_000_000_000),
+                0,
+                0,
+            ),
+            TemporalValue::LocalDateTime(dt) => (
+                3,
+                i128::from(dt.date().num_days_from_ce()),
+                i64::from(dt.time().num_seconds_from_midnight()),
+                i64::from(dt.time().nanosecond()),
+            ),
+            TemporalValue::DateTime(dt) => {
+                let u = dt.naive_utc();
+                (
+                    4,
+                    i128::from(u.date().num_days_from_ce()),
+                    i64::from(u.time().num_seconds_from_midnight()),
+                    i64::from(u.time().nanosecond()),
+                )
+            }
+        },
+    )
+}
+
 #[derive(Debug, Clone, Default)]
 struct DurationParts {
     months: i32,
